@@ -29,7 +29,8 @@ PrintableB(v) == IF v.t = "arr" THEN \A i \in 1..Len(v.es) : (v.es[i].t # "obj" 
                  ELSE Printable(v)
 
 (* ----------------------------- characters ----------------------------- *)
-UpperCh(c) == CASE c = "a" -> "A" [] c = "b" -> "B" [] c = "$e$" -> "$E$" [] OTHER -> c
+\* $i$ is the dotless i (2 bytes, capital I: 1 byte), $l$ the long s (2 bytes, capital S: 1 byte)
+UpperCh(c) == CASE c = "a" -> "A" [] c = "b" -> "B" [] c = "$e$" -> "$E$" [] c = "$i$" -> "I" [] c = "$l$" -> "S" [] OTHER -> c
 LowerCh(c) == CASE c = "A" -> "a" [] c = "B" -> "b" [] c = "$E$" -> "$e$" [] OTHER -> c
 RECURSIVE Rev(_)
 Rev(s) == IF s = <<>> THEN <<>> ELSE Rev(Tail(s)) \o <<s[1]>>
